@@ -614,10 +614,68 @@ def check_own_state(ctx):
            '; '.join(problems[:3]))
 
 
+def check_grid_cut(ctx):
+    """"every daughter starts at its mother's division time": the daughters' time grid is the mother's grid from the first point that is
+    not before the division time.  The helper that cuts the grid must find that point by looking at the grid values themselves, in
+    increasing index order (a first-hit scan) - the grid need not be evenly spaced."""
+    f = ctx.fn('lineage:LineageSSASimulator.truncate_timepoints_less_than')
+    where = ctx.loc('lineage', f)
+    arr, val = f.args.args[1].arg, f.args.args[2].arg
+    defs = {n_: v_ for n_, v_ in util.single_defs(f).items() if v_ is not None}
+    problems = []
+    hits = 0
+
+    def full_range(it):
+        if not (isinstance(it, ast.Call) and src(it.func) == 'range' and len(it.args) == 1):
+            return False
+        b = util.inline(it.args[0], defs)
+        return src(b).replace(' ', '') in ('%s.shape[0]' % arr, 'len(%s)' % arr, '%s.size' % arr)
+    for r in [n for n in ast.walk(f) if isinstance(n, ast.Return)]:
+        v = r.value
+        g = {x.replace(' ', '') for x in util.guards_of(r, f)}
+        if isinstance(v, ast.Name) and v.id == arr:
+            if not ({'%s<=%s[0]' % (val, arr)} & g):
+                problems.append('the whole grid is returned under %s' % sorted(g))
+            continue
+        if not (isinstance(v, ast.Subscript) and src(v.value) == arr and isinstance(v.slice, ast.Slice) and v.slice.step is None):
+            problems.append('returns %s' % src(v))
+            continue
+        lo, hi = v.slice.lower, v.slice.upper
+        if lo is None and hi is not None and util.const_num(hi) == 0:
+            continue        # empty grid: nothing at or after the value
+        if hi is None and lo is not None and src(util.inline(lo, defs)).replace(' ', '') in ('%s.shape[0]' % arr, 'len(%s)' % arr):
+            continue
+        if hi is None and isinstance(lo, ast.Name):
+            j = lo.id
+            loop = r
+            while loop is not f and not (isinstance(loop, ast.For) and isinstance(loop.target, ast.Name) and loop.target.id == j):
+                loop = loop._parent
+            if loop is f or not full_range(loop.iter):
+                problems.append('`%s` starts at an index that is not found by scanning the grid from its first point' % src(v))
+                continue
+            if '%s<=%s[%s]' % (val, arr, j) not in g:
+                problems.append('`%s` is returned under %s, not at the first point with %s[%s] >= %s' % (src(v), sorted(g), arr, j, val))
+                continue
+            if any(isinstance(x, (ast.Continue, ast.Break)) for x in ast.walk(loop)) or \
+                    any(isinstance(x, (ast.Assign, ast.AugAssign)) and any(isinstance(t, ast.Name) and t.id == j for t in (x.targets if isinstance(x, ast.Assign) else [x.target]))
+                        for x in ast.walk(loop)):
+                problems.append('the scan over the grid skips points')
+                continue
+            hits += 1
+            continue
+        problems.append('returns %s' % src(v))
+    if not hits and not problems:
+        problems.append('no scan of the grid found')
+    ctx.ob('R19.3-grid-cut', 'truncate_timepoints_less_than', not problems, where,
+           "the daughters' grid starts at the first grid point that is not before the division time, found from the grid values (any spacing)",
+           '; '.join(problems))
+
+
 def check(ctx):
     prog = ctx.prog
     for m in ('types', 'types.pxd', 'simulator', 'simulator.pxd', 'lineage', 'lineage.pxd', 'random'):
         prog.mod(m)
+    check_grid_cut(ctx)
     fl = None
     for mod, cls in SPLITTERS:
         f, copies, p_var = check_partition(ctx, mod, cls)
